@@ -726,7 +726,32 @@ def _regex_test(kind):
     return h
 
 
+def _operator(op):
+    def h(ex, st, args, kwargs):
+        a, b = args
+        yield from bm.compare(ex, st, op, a, b)
+
+    return h
+
+
+def _round(ex, st, args, kwargs):
+    x = args[0]
+    nd = args[1] if len(args) > 1 else kwargs.get("ndigits")
+    if not is_sym(x) and not is_sym(nd):
+        yield st, round(x, nd) if nd is not None else round(x)
+        return
+    if natural_sort(x) in ("int", "bool") and nd is None:
+        yield st, x
+        return
+    # float rounding: an uninterpreted function (nothing is known about binary rounding)
+    f = ex.uf("py_round", z3.RealSort(), z3.IntSort(), z3.RealSort())
+    yield st, SV("real", f(lift(x, "real"), lift(nd if nd is not None else 0, "int")))
+
+
 FUNCS = {
+    "round": _round,
+    "operator.eq": _operator(ast.Eq), "operator.ne": _operator(ast.NotEq), "operator.lt": _operator(ast.Lt),
+    "operator.le": _operator(ast.LtE), "operator.gt": _operator(ast.Gt), "operator.ge": _operator(ast.GtE),
     "len": _len, "int": _int, "str": _str, "bool": _bool, "divmod": _divmod, "any": _any, "all": _all,
     "callable": _callable, "type": _type, "min": _minmax("min"), "max": _minmax("max"), "abs": _abs,
     "ord": _ord, "list": _list, "tuple": _tuple, "dict": _dict, "set": _set, "enumerate": _enumerate,
